@@ -9,7 +9,7 @@ CALLS = ['compile', 'compile_nv', 'update_var', 'update_edge', 'zero']
 
 def run(ctx):
     tier = ctx.tier
-    ctx.rule = ('TLC explores every history of <= 3 (quick) / 4 (thorough) calls from {update_var (single node, all, scalar, '
+    ctx.rule = ('TLC explores every history of <= 2 calls (quick: clearing compiles, circuits c1/c3; thorough: all compile variants, c1/c2/c3), sampled histories of depth 4 (7) from {update_var (single node, all, scalar, '
                 'per-node array, value 0; rate constant and initial value), update_var(edge_vars), get_run_func(node_values=...) with '
                 'single-node, all/ scalar and all/ per-node array values (also 0), '
                 'get_run_func} over a universe in which NodeTemplate and OperatorTemplate objects are shared between nodes and '
@@ -17,7 +17,8 @@ def run(ctx):
                 'distinct abstract state reached by a compile is replayed and the compiled field/initial state compared exactly')
     ctx.assumptions += ['node-template constructor overrides are part of the fixed universe (t3: k, t4: x0)',
                         'in_place=False compiles; second compiles of one template are subject to known finding D40']
-    behs = ac.dedupe(ac.tlc_behaviours(ctx, 'C07', CALLS, 2 if tier == 'quick' else 3,
+    behs = ac.dedupe(ac.tlc_behaviours(ctx, 'C07', CALLS, 2,      # thorough: the same bound without the quick-tier constraints, more circuits, deeper sampling
+                                      
                                        simulate=(120, 4) if tier == 'quick' else (3000, 7),
                                        extra=['ClearingCompiles'] if tier == 'quick' else [],
                                        circs={'c1', 'c3'} if tier == 'quick' else {'c1', 'c2', 'c3'}))
